@@ -8,4 +8,5 @@ for ws in e1_pull e1_sink e1_push e2_wakesim; do
   (cd "$ws" && cargo build --release --offline)
 done
 (cd e4_hydroprod && cargo build --release --offline -p e4_hydroprod)
+./e5_hydrosim/warm.sh
 echo "setup ok"
